@@ -1134,3 +1134,5 @@ B('C19', 'sum under a power without parentheses', 'integral/rules.py',
 B('C01', 'checked_get_type accepts a negative de Bruijn index', TERM,
   "                bodyT = rec(t.body, [t.var_T] + bd_vars)\n                return TFun(t.var_T, bodyT)\n            elif t.is_bound():\n                # A negative number is not a de Bruijn index (and would\n                # count the binders from the outside).\n                if t.n < 0 or t.n >= len(bd_vars):",
   "                bodyT = rec(t.body, [t.var_T] + bd_vars)\n                return TFun(t.var_T, bodyT)\n            elif t.is_bound():\n                if t.n >= len(bd_vars):", 'C01.K18', 'checked_get_type')
+B('C04', 'imp_to_or expansion walks over the goal as well', VM,
+  "        disjs = []\n        for arg in args[:-1]:\n            if arg.is_not():", "        disjs = []\n        for arg in args:\n            if arg.is_not():", 'C04.M18', 'imp_to_or')
